@@ -115,6 +115,14 @@ static inline std::vector<Item> pool()
     v.push_back({"all header fields distinctive", [] { return distinctive(0x44, ST::intermediarySegment, 0xFE); }, true});
     v.push_back({"... stream id differs", [] { return distinctive(0x45, ST::intermediarySegment, 0xFE); }, true});
     v.push_back({"... segment type differs", [] { return distinctive(0x44, ST::lastSegment, 0xFE); }, true});
+    v.push_back({"... MESSAGE type differs (status), same raw payload type byte, same bytes",
+                 [] {
+                     auto p = distinctive(0x44, ST::intermediarySegment, 0xFE);
+                     Bytes d = pat(5, 2);
+                     p.setPayload(A::Payload(A::PayloadType(A::CmpHeader::MessageType::status, 0xFE), d.data(), d.size()));
+                     return p;
+                 },
+                 true});
     v.push_back({"... payload type differs, same bytes", [] { return distinctive(0x44, ST::intermediarySegment, 0xFD); }, true});
     // one member per header field that differs from "all header fields distinctive" in that field ONLY
     v.push_back({"... version differs", [] { auto p = distinctive(0x44, ST::intermediarySegment, 0xFE); p.setVersion(0x12); return p; }, true});
